@@ -132,7 +132,7 @@ func (f *FakeSrv) removePending(r *fsReq) {
 	}
 }
 
-// noteReply updates the server-side fid table as a real server would.
+// noteReply updates the server-side fid table.
 func (f *FakeSrv) noteReply(r *fsReq, rep rc.Message) {
 	r.Reply, r.Answered = rep, true
 	f.removePending(r)
@@ -146,9 +146,16 @@ func (f *FakeSrv) noteReply(r *fsReq, rep rc.Message) {
 			f.bound.Set(nf, true)
 		}
 	}
+	// C10 lets a fid number be given out again only once "its clunk or remove
+	// was confirmed".  A clunk or remove answered with Rlerror confirms nothing:
+	// whether this server released the fid is unknown to the client, so the
+	// fake plays the server that did not.
+	if isErr {
+		return
+	}
 	switch t := r.Msg.(type) {
 	case *rc.Tclunk:
-		f.bound.Del(t.Fid) // clunk always unbinds
+		f.bound.Del(t.Fid)
 	case *rc.Tremove:
 		f.bound.Del(t.Fid)
 	}
